@@ -40,8 +40,117 @@ def _exact(x):
     return None
 
 
+class SymMap:
+    """A Python mapping with a finite, concrete key universe in a fixed order, where each key is *symbolically* present
+    (z3 Bool or bool) and carries a symbolic value.  `k in m` -> Bool term; `m.get(k, d)` -> ite(present, value, d) without
+    forking; `m[k]` forks (KeyError path) unless a default factory is attached (defaultdict semantics, no insertion
+    modelled: a missing key always yields a fresh default, which is what defaultdict returns on first access);
+    iteration (`items/keys/values`) forks on the presence of every key."""
+
+    _pyvc_value = True
+
+    def __init__(self, keys, present, value, default_factory=None, zero_when_absent=False):
+        """zero_when_absent: the creator has assumed  not present[k] => value[k] == 0  for every key (a re-parametrisation
+        without loss of generality: the value of an absent key is never observable).  Then `get(k, 0)` IS value[k]
+        and no if-then-else term is needed."""
+        self.universe = list(keys)
+        self.present = dict(present)
+        self.value = dict(value)
+        self.default_factory = default_factory
+        self.zero_when_absent = zero_when_absent
+
+    def with_default(self, factory):
+        return SymMap(self.universe, self.present, self.value, factory, self.zero_when_absent)
+
+    @staticmethod
+    def _is_zero(d):
+        if isinstance(d, (Sym, SymArr)) or d is None:
+            return False
+        try:
+            return float(d) == 0.0
+        except Exception:
+            return False
+
+    def _p(self, k):
+        return self.present.get(k, False) if isinstance(k, str) and k in self.value else False
+
+    def contains(self, k):
+        p = self._p(k)
+        return p if isinstance(p, bool) else Sym(p)
+
+    def get(self, k, default=None):
+        p = self._p(k)
+        if p is False:
+            return default
+        if p is True:
+            return self.value[k]
+        if default is None or isinstance(default, (str, dict, list, tuple)):
+            return self.value[k] if V.cur().branch(p) else default
+        if self.zero_when_absent and self._is_zero(default):
+            return self.value[k]
+        return V.ite(p, self.value[k], default)
+
+    get._sym_ok = True
+
+    def getitem(self, k):
+        from ..interp import RaiseSig
+
+        p = self._p(k)
+        if self.default_factory is not None:
+            if p is True:
+                return self.value[k]
+            d = self.default_factory()
+            if p is False:
+                return d
+            if self.zero_when_absent and self._is_zero(d):
+                return self.value[k]
+            return V.ite(p, self.value[k], d)
+        if p is True or (p is not False and V.cur().branch(p)):
+            return self.value[k]
+        raise RaiseSig(KeyError(k))
+
+    def keys(self):
+        return [k for k in self.universe if (self._p(k) is True) or (self._p(k) is not False and V.cur().branch(self._p(k)))]
+
+    def items(self):
+        return [(k, self.value[k]) for k in self.keys()]
+
+    def values(self):
+        return [self.value[k] for k in self.keys()]
+
+    def __iter__(self):
+        return iter(self.keys())
+
+    def copy(self):
+        return SymMap(self.universe, self.present, self.value, self.default_factory, self.zero_when_absent)
+
+    def __repr__(self):
+        return f"SymMap({self.universe})"
+
+
 def install(reg):
     M = reg.models
+
+    # ---- SymMap protocol ---------------------------------------------------------------------------------------
+    reg.contains_models[SymMap] = lambda interp, container, item: container.contains(item)
+    reg.getitem_models[SymMap] = lambda interp, base, key: base.getitem(key)
+
+    def m_any(interp, xs):
+        """any(): over bool terms the disjunction is returned as a term (no path fork) - same value as the builtin."""
+        vals = interp.iter_values(xs)
+        if vals is None:
+            raise OutOfSubset("any() over symbolic-length iterable")
+        if all(isinstance(v, bool) or (isinstance(v, Sym) and v.is_bool) for v in vals):
+            if any(v is True for v in vals):
+                return True
+            terms = [v.t for v in vals if isinstance(v, Sym)]
+            return Sym(z3.Or(*terms)) if terms else False
+        for v in vals:
+            if interp.truth(v):
+                return True
+        return False
+
+    M[any] = m_any
 
     # ---- exact rational constants (A1 on literals) -------------------------------------------------------------
     def m_const_div(interp, op, a, b):
@@ -179,13 +288,15 @@ def install(reg):
 
     M[math.atan2] = m_math_atan2
 
+    FFTFREQ = z3.Function("fftfreq", z3.IntSort(), z3.RealSort(), z3.IntSort(), z3.RealSort())
+
     def m_fftfreq(interp, n, d=1.0, **kw):
-        """torch.fft.fftfreq(n, d): a real tensor of length n.  The sample values are left abstract (fresh function):
-        every C12 statement holds for arbitrary spatial-frequency grids."""
+        """torch.fft.fftfreq(n, d): a real tensor of length n whose i-th sample is a fixed function of (n, d, i).
+        The sample values are left abstract (uninterpreted): every C12 statement holds for arbitrary frequency grids."""
         if not contains_sym((n, d)):
-            kw = {k: v for k, v in kw.items()}
             return interp.native(torch.fft.fftfreq, n, d, **kw)
-        a = interp.ctx.fresh_arr("fftfreq", (n,), "real")
+        nt, dt = lift(n), reals._real(d)
+        a = SymArr((n,), lambda i: Sym(FFTFREQ(nt, dt, i)), "real")
         a.as_type = torch.Tensor
         return a
 
@@ -200,6 +311,8 @@ def install(reg):
 
     # ---- containers -------------------------------------------------------------------------------------------------
     def c_defaultdict(interp, *args, **kwargs):
+        if len(args) == 2 and isinstance(args[1], SymMap) and not kwargs:
+            return args[1].with_default(args[0])
         return collections.defaultdict(*args, **kwargs)
 
     reg.ctor_models[collections.defaultdict] = c_defaultdict
